@@ -82,6 +82,18 @@ def observe(at, cm, post, fit):
         o["exc"] = fsutil.exc_str(r.exc)
         return o
     ps = pairs.pair_status(r.frame, r.fm, r.info, r.cols, fit)
+    under = set()
+    if fit == "dlite":
+        import forsys.virtual_edges as ve
+        for n, ii in enumerate(r.cols):
+            be = r.frame.big_edges[r.frame.big_edges_list.index(list(r.fm.big_edges_to_use[n]))]
+            pts = [complex(x.x, x.y) for x in be.vertices]
+            if len(pts) >= 3 and not be.is_straight():
+                with fsutil.quiet():
+                    xc, yc = ve.calculate_circle_center(be.vertices, method="dlite")
+                if pairs.dlite_underconverged_generic(pts, complex(xc, yc)):
+                    under.add(str(ii))
+    o["underconverged"] = sorted(under)
     o["pairs"] = {"%s|%s" % k: [v["pair"].real, v["pair"].imag, v["exp"].real, v["exp"].imag, v["status"]] for k, v in ps.items()}
     o["tension"] = {str(ii): float(x) for ii, x in zip(r.cols, r.forces)}
     jid_of = {vid: j for j, vid in r.info["jvid"].items()}
@@ -165,29 +177,64 @@ class Poses:
         tags = [{"tr": "translate", "rot": "rotate", "refx": "reflect", "refy": "reflect", "refd": "reflect", "sc": "scale"}[t] for t in tags]
         if noise:
             tags.append("noisy")
-        if any(g[0] == "tr" and max(abs(g[1]), abs(g[2])) >= 1e3 for g in chain):
+        if Poses.offset_in_sizes(chain) >= 1e3:
             tags.append("far_translation")
         cls = "%d|%s" % (d["t"], ",".join("%s" % g[0] for g in chain))
         return {"viol": [], "tags": sorted(set(tags)), "cls": cls + "|" + fsutil.state_hash(d["chain"])[:6], "obs": obs, "nontrivial": bool(chain)}
 
+    @staticmethod
+    def offset_in_sizes(chain):
+        """distance of the tissue from the origin, in units of its CURRENT size, after the chain (scalings after a translation
+        keep the ratio, scalings before it change it)"""
+        off, size = 0.0, 1.0
+        for x in chain:
+            if x[0] == "tr":
+                off += max(abs(x[1]), abs(x[2]))          # translations are given in units of the original extent
+            elif x[0] == "sc":
+                off *= x[1]
+                size *= x[1]
+        return off / size if size else 0.0
+
     def check_edge(self, d, a, d2, r, r2):
         viol, known = [], []
         g = self.els(d["t"])[a[0]]
-        far = any(x[0] == "tr" and max(abs(x[1]), abs(x[2])) >= 1e2 for x in [self.els(d["t"])[i] for i in d2["chain"]])
+        chain2 = [self.els(d["t"])[i] for i in d2["chain"]]
+        # the tissue's offset from the origin matters relative to its current size: a translation by one original extent
+        # after a scaling by 1e-3 is a translation by 1000 current sizes
+        sizes = 1.0
+        worst_off = 0.0
+        for n in range(1, len(chain2) + 1):
+            sz = 1.0
+            for x in chain2[:n]:
+                if x[0] == "sc":
+                    sz *= x[1]
+            off = 0.0
+            cur = 1.0
+            for x in chain2[:n]:
+                if x[0] == "sc":
+                    cur *= x[1]
+                    off *= x[1]
+                elif x[0] == "tr":
+                    off += max(abs(x[1]), abs(x[2]))
+            worst_off = max(worst_off, off / cur)
+        far = worst_off >= 1e2
         res = {}
         for fit in FITS:
             o1, o2 = r["obs"][fit], r2["obs"][fit]
-            mt = max([max(abs(x[1]), abs(x[2])) for x in [self.els(d["t"])[i] for i in d2["chain"]] if x[0] == "tr"] or [0.0])
-            res[fit] = self.compare(g, o1, o2, fit, bool(self.tissues[d["t"]][2]), mt)
+            res[fit] = self.compare(g, o1, o2, fit, bool(self.tissues[d["t"]][2]), worst_off)
         for fit in FITS:
             v, f1 = res[fit]
             if f1:
                 known.append({"id": "F1", "fit": fit, "element": g})
+            if any(x.get("F22") for x in v):
+                known.append({"id": "F22", "fit": fit, "element": g, "interfaces": [x for x in v if x.get("F22")][0]["detail"]})
+                v = [x for x in v if not x.get("F22")]
             if v and v[0].get("F21"):
                 known.append({"id": "F21", "fit": fit, "element": g, "detail": v[0]["detail"]})
                 continue
             if v:
-                if fit == "dlite" and far and not res["taubinSVD"][0]:
+                taub_clean = not [x for x in res["taubinSVD"][0] if not x.get("F21")]
+                if fit == "dlite" and far and taub_clean:
                     known.append({"id": "F8", "element": g, "chain": d2["chain"], "what": v[0]["what"], "detail": v[0].get("detail")})
                 else:
                     for x in v:
@@ -233,8 +280,13 @@ class Poses:
             viol.append({"what": "set of equations / unknowns changed with the pose"})
             return viol, f1
         worst = 0.0
+        f22 = False
+        under = set(o1.get("underconverged", [])) | set(o2.get("underconverged", []))
         for k, p1 in o1["pairs"].items():
             p2 = o2["pairs"][k]
+            if k.split("|")[1] in under:
+                f22 = True        # F22: leastsq stopped short of the optimum of its own objective for this interface in one of the poses
+                continue
             if p1[4] == "f1" or p2[4] == "f1":
                 f1 = True
                 # compare the dot-oriented tangents from the library's own centres instead
@@ -253,7 +305,9 @@ class Poses:
             tolc = 1e-3 if noisy else 1e-7 * (1 + 30 * maxtrans)
         if worst > tolc:
             viol.append({"what": "coefficient pairs do not rotate / reflect with the tissue", "detail": {"max_dev": worst, "tol": tolc}})
-        if f1:
+        if f22:
+            viol.append({"F22": True, "what": "dlite under-convergence", "detail": sorted(under)[:5]})
+        if f1 or f22:
             return viol, f1
         if o1["unique"] and o2["unique"]:
             tol = 1e-9 * max(1.0, min(max(o1["cond"], o2["cond"]), 1e6)) + 10 * worst * max(o1["cond"], 1.0)
